@@ -305,6 +305,35 @@ def recovered (cfg : Cfg) (bs : Bytes) : List Out :=
   | .ok outs _ => outs
   | _ => []
 
+/-! ### recovery order across files
+
+`findWALFiles`: `filepath.Glob` (name order) then `sort.Slice` by modification time. For ≤ 12 files
+`sort.Slice` is an insertion sort, i.e. with the strict comparator `Before` it is stable (files with
+equal mtimes stay in name order); with a non-strict comparator (`!After`) every group of equal
+mtimes is reversed. `strict` is the regenerated fact `Arc.Generated.C06.mtimeComparatorStrict`. -/
+
+def insByMtime (strict : Bool) (x : Nat × Bytes) : List (Nat × Bytes) → List (Nat × Bytes)
+  | [] => [x]
+  | y :: ys =>
+    if (if strict then decide (y.1 < x.1) else decide (y.1 ≤ x.1)) then y :: insByMtime strict x ys
+    else x :: y :: ys
+
+/-- files given in name order as (mtime, content) → the order recovery reads them in -/
+def sortByMtime (strict : Bool) : List (Nat × Bytes) → List (Nat × Bytes)
+  | [] => []
+  | x :: xs => insByMtime strict x (sortByMtime strict xs)
+
+/-- what a recovery pass over the directory replays -/
+def recoverDir (cfg : Cfg) (strict : Bool) (files : List (Nat × Bytes)) : List Out :=
+  (sortByMtime strict files).flatMap fun f => recovered cfg f.2
+
+/-! ### ownership of appended bytes
+
+`Entry.payload` is the byte string passed to `AppendRaw*` AT THE TIME OF THE CALL: the model's
+append functions are pure, i.e. the writer owns a private copy (and its checksum) when the call
+returns; later changes of the caller's buffer cannot reach the file. This is the regenerated fact
+`Arc.Generated.C06.appendCopiesBeforeEnqueue` (copy + CRC before `tryEnqueue`). -/
+
 def view? (cfg : Cfg) (e : Entry) : Option Out :=
   match classify cfg e.ts e.payload with
   | .out o => some o
